@@ -770,8 +770,25 @@ def alias_cases(rng, n):
         it, good, bad = rng.choice(inner)
         v = good if rng.random() < 0.7 else bad
         k = rng.randint(2, 4)
-        shape = rng.choice(['list', 'dict', 'tuple', 'optlist', 'tuplevar'])
+        shape = rng.choice(['list', 'dict', 'tuple', 'optlist', 'tuplevar', 'unionthen', 'unionthen', 'thenunion', 'unionthendeep'])
         sp = rng.choice(['typing', 'pep585'])
+        if shape in ('unionthen', 'thenunion', 'unionthendeep'):
+            # the SAME object under two annotations: at one position a Union of which one member fails on it (absorbed: another member
+            # matches), at another position exactly that failing member.  A memo of "this object was looked at under this annotation"
+            # that forgets the verdict accepts the second position.  (typing caches List[int]: both occurrences are one annotation object.)
+            i = rng.randrange(len(inner))
+            a_t, a_good, a_bad = inner[i]
+            b_t = {0: ["seq", "typing", "list", cls_term(str)], 1: ["map", "typing", "dict", cls_term(str), cls_term(str)],
+                   2: ["seq", "pep585", "set", cls_term(str)]}[i]
+            v = a_bad if rng.random() < 0.7 else a_good       # a_bad conforms to b_t only, a_good to a_t only
+            u = ["union", "union", [a_t, b_t] if rng.random() < 0.7 else [b_t, a_t]]
+            pair = [u, a_t] if shape != 'thenunion' else [a_t, u]
+            at, vt = ["tuple", sp, pair], ["tup", IDX[tuple], [v, v]]
+            if shape == 'unionthendeep':
+                at, vt = ["map", sp, "dict", cls_term(str), at], ["mapping", IDX[dict], [[lit('k'), vt]]]
+            at, _ = canon_ann(at)
+            cases.append(mk_case(at, canon_term(vt), kind='aliased', alias=True))
+            continue
         if shape == 'list':
             at, vt = ["seq", sp, "list", it], ["coll", IDX[list], [v] * k]
         elif shape == 'dict':
